@@ -635,9 +635,20 @@ class PlanJoinTablesQuery:
 
         return conditions
 
+    def get_column_and_value(self, cond):
+        # operands of the comparison of a column with a value; the column can be written on either side
+        arg1, arg2 = cond.args
+        if not isinstance(arg1, Identifier):
+            arg1, arg2 = arg2, arg1
+        return arg1, arg2
+
     def is_model_argument(self, item, cond):
-        # condition 'column = value' for a model is its input, unless column is the target of prediction
-        if not (isinstance(cond.args[0], Identifier) and cond.op == '='):
+        # condition 'column = value' or 'value = column' for a model is its input,
+        #   unless column is the target of prediction
+        if cond.op != '=':
+            return False
+        column, _ = self.get_column_and_value(cond)
+        if not isinstance(column, Identifier):
             return False
 
         predict_target = item.predictor_info.get('to_predict')
@@ -646,7 +657,7 @@ class PlanJoinTablesQuery:
         if predict_target is not None:
             predict_target = predict_target.lower()
 
-        col_name = cond.args[0].parts[-1]
+        col_name = column.parts[-1]
         return col_name.lower() != predict_target
 
     def process_predictor(self, item, query_in):
@@ -666,8 +677,9 @@ class PlanJoinTablesQuery:
             for i, el in enumerate(item.conditions):
                 # don't add predict target to parameters
                 if self.is_model_argument(item, el):
-                    if isinstance(el.args[1], (Constant, Parameter)):
-                        row_dict[el.args[0].parts[-1]] = el.args[1].value
+                    column, value = self.get_column_and_value(el)
+                    if isinstance(value, (Constant, Parameter)):
+                        row_dict[column.parts[-1]] = value.value
 
                     # exclude condition
                     el._orig_node.args = [Constant(0), Constant(0)]
